@@ -280,3 +280,42 @@ def _(gene, major_sols):
             or exists(lambda mi=str: mi in gene.alleles[sa.major].minors and m in gene.alleles[sa.major].minors[mi].neutral_muts)))))),
         label="considered-variants-of-this-candidate-only")
     modifies()
+
+
+# C04: the read-out of ONE selected candidate copy (slice inside the solution loop of solve_minor_model): which variants
+# are reported as added to / lost from the copy.
+
+
+def is_bin(v):
+    """an integer variable with bounds [0, 1] (what CBC.getValue reads back as a boolean)"""
+    return lp_integer(v) and abs(lp_lb(v)) < 0.01 and abs(1 - lp_ub(v)) < 0.01
+
+
+def chosen(v):
+    """value of a binary variable in the solver's solution, as CBC.getValue reads it"""
+    return round(lp_solution(v)) > 0
+
+
+@contract("aldy.minor.solve_minor_model@read-out", native=False)
+def _(model, allele, alleles, VKEEP, VNEW, coverage, major_sol):
+    types(model="CBC", allele="Tuple[AlleleId, int]",
+          alleles="Dict[Tuple[AlleleId, int], Set[Mutation]]",
+          VKEEP="Dict[Tuple[AlleleId, int], Dict[Mutation, Tuple[LinVar, LinVar]]]",
+          VNEW="Dict[Tuple[AlleleId, int], Dict[Mutation, Tuple[LinVar, LinVar]]]",
+          coverage="Coverage", major_sol="MajorSolution")
+    returns("Tuple[List[Mutation], List[Mutation]]")
+    requires(allele in VKEEP and allele in VNEW and allele in alleles)
+    requires(cn_wf(major_sol.cn_solution))
+    # the keep / add selectors are binary variables (created with vtype="B": slices keepable / addable)
+    requires(forall(lambda m=Mutation: implies(m in VKEEP[allele], is_bin(VKEEP[allele][m][0]))))
+    requires(forall(lambda m=Mutation: implies(m in VNEW[allele], is_bin(VNEW[allele][m][0]))))
+    # C04 "the reported alleles": a defined variant is reported LOST iff its keep selector is 0 in the solution ...
+    ensures(forall(lambda m=Mutation: (m in set(result[1])) == (m in VKEEP[allele] and not chosen(VKEEP[allele][m][0]))),
+            label="lost-iff-not-kept")
+    # ... and a variant is reported ADDED iff its add selector is 1 ("the reported score equals the model objective ... of
+    # the reported assignment").     KNOWN FINDING F29/F30: unselected variants observed at max_cn copies are added as well
+    ensures(forall(lambda m=Mutation: (m in set(result[0])) == (m in VNEW[allele] and chosen(VNEW[allele][m][0]))),
+            label="added-iff-selected")
+    ensures(forall(lambda m=Mutation: implies(m in VNEW[allele] and chosen(VNEW[allele][m][0]), m in set(result[0]))),
+            label="selected-additions-reported")
+    modifies()
